@@ -476,7 +476,8 @@ fn random_sequence(t: &mut Trace, rng: &mut Rng, k: u64, seed: u64, len: u64) {
 }
 
 /// Bounded-exhaustive supplement: every sequence of length `depth` over a small alphabet
-/// (thorough tier; `part`/`parts` splits the work over the shards).
+/// for both flavours and minimum temporary lifetimes 1 and 3 (`part`/`parts` splits the work
+/// over the shards of the thorough tier).
 fn exhaustive(t: &mut Trace, depth: u32, part: u64, parts: u64) {
     const A: u64 = 9;
     let total = A.pow(depth);
@@ -484,8 +485,9 @@ fn exhaustive(t: &mut Trace, depth: u32, part: u64, parts: u64) {
         if code % parts != part {
             continue;
         }
-        let kind = if (code / parts) % 2 == 0 { Kind::Owner } else { Kind::Admin };
-        let min_temp = if (code / parts / 2) % 2 == 0 { 1 } else { 3 };
+        for combo in 0..4u32 {
+        let kind = if combo % 2 == 0 { Kind::Owner } else { Kind::Admin };
+        let min_temp = if combo / 2 == 0 { 1 } else { 3 };
         let mut s = Sim::new(t, &format!("exhaustive depth={} code={}", depth, code), kind, min_temp, 50, 10);
         let mut c = code;
         for _ in 0..depth {
@@ -517,6 +519,7 @@ fn exhaustive(t: &mut Trace, depth: u32, part: u64, parts: u64) {
             }
             c /= A;
         }
+        }
     }
 }
 
@@ -535,7 +538,7 @@ fn main() {
     if depth > 0 {
         // each shard (seed) covers one residue class of the enumeration
         let parts = arg_u64("--parts", if thorough { 8 } else { 1 });
-        let part = (seed / 7919) % parts;
+        let part = arg_u64("--shard", (seed / 7919) % parts) % parts;
         exhaustive(&mut t, depth, part, parts);
     }
     t.finish();
